@@ -515,3 +515,8 @@ def check(run):
     r18g(run)
     r18h(run)
     r18i(run)
+    # shared with C10: with collect_errors the depth error is only recorded; the limit rejects at every position only if
+    # each context owner passes raise_error() before it returns
+    from . import c04, c10
+    run.rules_run.append("R10b")
+    c10.r10b(run, c04.in_scope_functions(run) + list(run.repo.module("utype.parser.options").functions.values()))
